@@ -323,6 +323,42 @@ def cgen_case(seed, idx, avoid=()):
     return build
 
 
+def _scalar_argvecs(r, m):
+    argvecs = {}
+    for f in m.functions:
+        if all(p.ty.is_integer or p.ty in (irgen.T("f32"), irgen.T("f64")) for p in f.arguments):
+            argvecs[f.name] = irgen.gen_args(r, m, f.name, 2)
+    return argvecs
+
+
+def pygen_case(seed, idx, avoid=()):
+    """Module from the Python front-end (vlib.pygen program through python_to_ir)."""
+    def build():
+        import io
+        from ppci.api import python_to_ir
+        from vlib import pygen
+        r = rng(seed, "OPTPY", idx)
+        funcs, tags = pygen.gen_program(r, ())
+        m = python_to_ir(io.StringIO(pygen.render(funcs)), imports=pygen.IMPORTS)
+        return m, _scalar_argvecs(r, m), ["py:" + str(t) for t in sorted(tags)][:20], 8
+    return build
+
+
+def c3gen_case(seed, idx, avoid=()):
+    """Module from the C3 front-end (vlib.c3gen program through c3_to_ir)."""
+    def build():
+        import io
+        import contextlib
+        from ppci.api import c3_to_ir
+        from vlib import c3gen
+        r = rng(seed, "OPTC3", idx)
+        prog = c3gen.gen_program(r, ())
+        with contextlib.redirect_stdout(io.StringIO()):
+            m = c3_to_ir([io.StringIO(c3gen.render_c3(prog))], [], "x86_64")
+        return m, _scalar_argvecs(r, m), ["c3"], 8
+    return build
+
+
 def run_shard(spec, prop):
     """Shared by checks/c02.py and checks/c03.py."""
     mon = Monitor()
@@ -338,6 +374,14 @@ def run_shard(spec, prop):
             build = cgen_case(spec["seed"], idx, spec.get("avoid", ()))
             case = {"id": "cgen/%s/%d" % (spec["seed"], idx), "source": "cgen", "seed": spec["seed"], "index": idx}
             mon.count("origin", "cgen")
+        elif idx % 16 == 5:
+            build = pygen_case(spec["seed"], idx)
+            case = {"id": "pygen/%s/%d" % (spec["seed"], idx), "source": "pygen", "seed": spec["seed"], "index": idx}
+            mon.count("origin", "pygen")
+        elif idx % 16 == 13:
+            build = c3gen_case(spec["seed"], idx)
+            case = {"id": "c3gen/%s/%d" % (spec["seed"], idx), "source": "c3gen", "seed": spec["seed"], "index": idx}
+            mon.count("origin", "c3gen")
         else:
             build = irgen_case(spec["seed"], idx)
             case = {"id": "irgen/%s/%d" % (spec["seed"], idx), "source": "irgen", "seed": spec["seed"], "index": idx}
